@@ -716,11 +716,20 @@ func runC20(r *core.Run) {
 		Chunk int    `json:"read_chunk"` // 0 = whole input in one Read
 		Style string `json:"style"`      // "lf" | "crlf" | "nofinal" | "wide" (3-space separators, comments between rows)
 	}
-	r.Bound("big-tables", "square tables over the first N of 190 labels (bytes 0x21..0xFE without '#', '*' kept as gap) for N in {1,5,24,40,64,120,190} (text sizes 10 bytes .. 150 KiB, i.e. below and above the 4 KiB / 64 KiB buffer sizes), delivered whole and in reads of 1, 7, 512, 4096 and 4097 bytes, in LF / CRLF / no-final-newline / wide layouts")
+	r.Bound("big-tables", "square tables over the first N of 190 labels (bytes 0x21..0xFE without '#', '*' kept as gap) for N in {1,5,24,40,64,120,190} in every delivery, and EVERY N in 2..70 delivered whole and in reads of 7 bytes (text sizes 10 bytes .. 150 KiB, i.e. below and above the 4 KiB / 64 KiB buffer sizes), delivered whole and in reads of 1, 7, 512, 4096 and 4097 bytes, in LF / CRLF / no-final-newline / wide layouts")
 	core.Clause(r, "readncbi-big-tables", core.Opts{Rule: "large tables generated from a ground-truth map, every listed read size and layout; the decoded matrix must equal the ground truth pair for pair; non-trivial = all"},
 		func(emit func(bigCase) bool) {
-			for _, n := range []int{1, 5, 24, 40, 64, 120, 190} {
+			ns := []int{1, 5, 24, 40, 64, 120, 190}
+			for n := 2; n <= 70; n++ { // every alphabet size: a table or bit set sized for some number of letters is met at its edge
+				if n != 5 && n != 24 && n != 40 && n != 64 {
+					ns = append(ns, n)
+				}
+			}
+			for _, n := range ns {
 				for _, ch := range []int{0, 1, 7, 512, 4096, 4097} {
+					if n > 1 && n < 70 && n != 5 && n != 24 && n != 40 && n != 64 && ch != 0 && ch != 7 {
+						continue
+					}
 					for _, st := range []string{"lf", "crlf", "nofinal", "wide"} {
 						if n >= 120 && ch == 1 && st != "lf" {
 							continue
